@@ -628,6 +628,21 @@ func newSched(prop string, r *core.R, rng *rand.Rand, silentMon bool) (*sched, f
 func (s *sched) step(ghosts bool) {
 	rng, c, h, r, m := s.rng, s.c, s.h, s.r, s.m
 	switch p := rng.IntN(100); {
+	case p < 3:
+		// the coordinator's config-change path: a status is loaded with its version, an election stores a newer
+		// one meanwhile, then the stale status is swapped in. The swap must be refused: the stored term may not
+		// go backwards (the store records are judged by the monitor)
+		st, ver := s.inc.SR.LoadWithVersion()
+		stale := st.Clone()
+		s.triggerElection()
+		s.waitSteady(time.Duration(200+rng.IntN(600)) * time.Millisecond)
+		if !s.inc.Dead() {
+			r.Count("stale_status_swaps_attempted", 1)
+			if s.inc.SR.Swap(stale, ver) {
+				r.Count("status_swaps_accepted", 1)
+			}
+			h.Note("status loaded before an election swapped in afterwards")
+		}
 	case p < 18:
 		// writes, possibly with one follower not receiving them: heads differ at the next election
 		if ln := s.leaderName(); ln != "" && rng.IntN(2) == 0 {
